@@ -115,7 +115,8 @@ class FnUninit:
         self.fn = fn; self.eng = eng; self.fi = eng.core.fi(fn).prepare()
         self.ctx = ctx or {}
         from .ival import Intervals
-        self.dead = Intervals(fn, self.ctx, self.fi).dead_edges() | fn.enum_default_edges(self.fi)
+        self.iv = Intervals(fn, self.ctx, self.fi)
+        self.dead = self.iv.dead_edges() | fn.enum_default_edges(self.fi)
         self.objs = {}          # root -> {"size","type","kind"}
         self.viol = []          # (inst, root, missing mask, why)
         self.nreads = 0         # read obligations evaluated on local / heap objects
@@ -163,7 +164,7 @@ class FnUninit:
             pt = t[:-1]
             sz = L.size_of(pt)
             if sz is None or sz > LIMIT: continue
-            if pt == "i8": sz = 1                    # byte buffers / void*: arrays of unknown length - only the first byte is tracked (enough for a `uint8_t *out` result parameter)
+            if pt == "i8": sz = 16                   # byte buffers / void*: arrays of unknown length - only the first 16 bytes are tracked (enough for a scalar result written through a `void *out` / `uint8_t *out` parameter)
             self.objs[("arg", k)] = {"size": sz, "type": pt, "kind": "param", "name": fn.argnames.get(k, "#%d" % k)}
 
     def addr(self, o):
@@ -226,10 +227,17 @@ class FnUninit:
             c = i.get("callee") or ""
             if c.startswith("llvm.memset"):
                 root, off = self.addr(i.ops[0]); n = i.ops[2]
+                if n["k"] != "int":
+                    a = self.iv.ival(n)
+                    if a[0] == a[1] and 0 <= a[0] < (1 << 31): n = {"k": "int", "v": str(int(a[0])), "sv": str(int(a[0])), "t": n["t"]}
                 if root is not None and off is not None and n["k"] == "int":
                     st = dict(st); st[root] |= rng(off, int(n["v"]))
             elif c.startswith(("llvm.memcpy", "llvm.memmove")):
                 n = i.ops[2]
+                if n["k"] != "int":
+                    # a length that is constant in this context (e.g. a size parameter of a copy helper called with sizeof(x))
+                    a = self.iv.ival(n)
+                    if a[0] == a[1] and 0 <= a[0] < (1 << 31): n = {"k": "int", "v": str(int(a[0])), "sv": str(int(a[0])), "t": n["t"]}
                 sroot, soff = self.addr(i.ops[1])
                 if sroot is not None and soff is not None and n["k"] == "int":
                     nn = int(n["v"])
@@ -277,8 +285,17 @@ class FnUninit:
         if fls == tru or cond["k"] != "inst": return st
         taken = (b.id == tru)
         ci = self.fn.imap[cond["v"]]
-        if ci.op != "icmp": return st
-        a, bb = ci.ops; pred = ci["pred"]
+        if ci.op != "icmp":
+            # `if (helper(...))` / `if (!helper(...))` on a bool-returning callee: the same as comparing its result with 0
+            neg = False; x = ci
+            for _ in range(4):
+                if x.op == "xor" and x.ops[1]["k"] == "int" and int(x.ops[1]["v"]) & 1 and x.ops[0]["k"] == "inst": neg = not neg; x = self.fn.imap[x.ops[0]["v"]]
+                elif x.op in ("zext", "trunc") and x.ops[0]["k"] == "inst": x = self.fn.imap[x.ops[0]["v"]]
+                else: break
+            if x.op != "call" or x.get("callee") not in self.eng.summ: return st
+            a = {"k": "inst", "v": x.id, "t": x["t"]}; bb = {"k": "int", "v": "0", "sv": "0", "t": x["t"]}; pred = "eq" if neg else "ne"
+        else:
+            a, bb = ci.ops; pred = ci["pred"]
         # (1)
         if pred in ("eq", "ne") and bb["k"] == "null":
             root, off = self.fi.ptr(a)
@@ -583,8 +600,35 @@ def array_init(eng, fn):
         if any(kind == "bulk" or (off.is_const() and off.c == 0 and kind == "call") for (i, off, kind) in other): continue     # filled wholesale somewhere
         # every path through a covering loop's body passes a positional write (possibly different writes on different paths)
         full = False
+        def written_when_loop_continues(ci, h):
+            """a callee that writes the element only on success: does every way of staying in loop h after the call imply success?"""
+            us2 = eng.summary_for(ci)
+            if us2 is None: return False
+            nn = next((n for n in range(ci["nargs"]) if ci.ops[n]["t"].endswith("*") and fi.ptr(ci.ops[n])[0] == root), None)
+            if nn is None or nn not in us2.mw_ret: return False
+            classes = us2.mw_ret[nn]
+            if not any(classes.values()): return False
+            body = loops[h]
+            # the test of the result: same block or the next one
+            blk = ci.block; t = blk.term
+            if t.op != "br" or len(t.ops) != 3 or t.ops[0]["k"] != "inst": return False
+            x = fn.imap[t.ops[0]["v"]]; neg = False; pred = "ne"; cval = 0
+            for _ in range(4):
+                if x.op == "xor" and x.ops[1]["k"] == "int" and int(x.ops[1]["v"]) & 1 and x.ops[0]["k"] == "inst": neg = not neg; x = fn.imap[x.ops[0]["v"]]
+                elif x.op in ("zext", "trunc", "sext") and x.ops[0]["k"] == "inst": x = fn.imap[x.ops[0]["v"]]
+                elif x.op == "icmp" and x.ops[1]["k"] == "int" and x.ops[0]["k"] == "inst": pred = x["pred"]; cval = int(x.ops[1]["sv"]); x = fn.imap[x.ops[0]["v"]]
+                else: break
+            if x.id != ci.id: return False
+            def possible(rc, taken):
+                if rc is None: return True
+                res = {"eq": rc == cval, "ne": rc != cval, "ult": rc < cval, "ule": rc <= cval, "ugt": rc > cval, "uge": rc >= cval, "slt": rc < cval, "sle": rc <= cval, "sgt": rc > cval, "sge": rc >= cval}.get(pred, True)
+                return (res != neg) == taken
+            for taken, succ in ((True, t.ops[2]["v"]), (False, t.ops[1]["v"])):
+                unwritten_possible = any(possible(rc, taken) and not mask for rc, mask in classes.items())
+                if unwritten_possible and succ in body and h in fn.reachable(succ) | {succ}: return False
+            return True
         for h in {h for (_, h, _, _, _) in positional}:
-            wblocks = {i.block.id for (i, hh, _, kind, sz) in positional if hh == h and not (kind == "call" and sz != "callee-full")}
+            wblocks = {i.block.id for (i, hh, _, kind, sz) in positional if hh == h and not (kind == "call" and sz != "callee-full" and not written_when_loop_continues(i, h))}
             if not wblocks: continue
             body = loops[h]; seen = set(); st = [h]; escaped = False
             if h in wblocks: full = True; break
